@@ -145,6 +145,12 @@ class CallMixin:
 
     def havoc_call(self, st, what, args, node):
         """EXC-ANY: returns anything, raises any Exception, mutates mutable args."""
+        if not self.abstract:
+            # exact mode: "returns anything / raises anything" is an over-approximation of a call the engine has no model for, not a
+            # fact about the code.  The path is tagged; a VC refuted on a tagged path is reported `unknown` (verify.discharge), so
+            # an unmodelled call introduced by a harmless edit cannot become a VIOLATION without a natively replayed input.
+            # (abstract mode is different by design: there the contract is stated for whatever the callee does.)
+            st.assume(z3.Bool(f"__havoc__@{self.loc(node)} {what}"[:120]))
         self.exc_any(st.fork(), f"{self.loc(node)} call {what}")
         for a in args:
             if isinstance(a, VRef):
@@ -743,6 +749,19 @@ class CallMixin:
             acc = ops.pure_binop("Add", acc, x)
         return [(st, acc)]
 
+    def b_next(self, st, args, kwargs, node):
+        """next(<generator expression>[, default]): generator expressions are evaluated eagerly (one path per filter outcome), so the
+        first kept element is the answer.  Only for a generator-expression argument (a named iterator would need position state)."""
+        if node.args and isinstance(node.args[0], ast.GeneratorExp) and isinstance(args[0], VTuple):
+            if args[0].items:
+                return [(st, args[0].items[0])]
+            if len(args) > 1:
+                return [(st, args[1])]
+            if self.uni.known("StopIteration"):
+                self.raise_in(st, self.mk_exc("StopIteration"))
+                return []
+        return self.havoc_call(st, "next", args, node)
+
     def b_any(self, st, args, kwargs, node):
         items = self.concrete_items(st, args[0])
         if items is None:
@@ -960,6 +979,79 @@ class CallMixin:
         return self.havoc_call(st, f"dict.{name}", ([obj] if not const else []) + list(args), node)
 
     # --------------------------------------------------------- str methods --
+    def opaque_str(self, st, what, node):
+        """A string the engine has no model for: fresh, and (exact mode) the path is tagged so that a VC failing because of it is
+        `unknown`, not refuted."""
+        if not self.abstract:
+            st.assume(z3.Bool(f"__havoc__@{self.loc(node)} str.{what}"[:120]))
+        return VStr(z3.String(fresh_name(what)))
+
+    def format_template(self, st, template, args, kwargs):
+        """'lit{}lit{0}{name}'.format(...) with plain fields and str / int arguments -> concatenation (as for f-strings)."""
+        import string
+        if template is None:
+            return None
+        try:
+            fields = list(string.Formatter().parse(template))
+        except ValueError:
+            return None
+        acc = z3.StringVal("")
+        auto = 0
+        for lit, field, spec, conv in fields:
+            if lit:
+                acc = z3.Concat(acc, z3.StringVal(lit))
+            if field is None:
+                continue
+            if spec or conv:
+                return None
+            if field == "":
+                key, auto = auto, auto + 1
+            elif field.isdigit():
+                key = int(field)
+            elif field.isidentifier():
+                key = field
+            else:
+                return None
+            v = (args[key] if isinstance(key, int) and key < len(args) else kwargs.get(key)) if not isinstance(key, str) or key in kwargs else None
+            if isinstance(key, str):
+                v = kwargs.get(key)
+            if not isinstance(v, (VStr, VInt)) or (isinstance(v, VInt) and v.is_bv):
+                return None
+            acc = z3.Concat(acc, self.to_str(st, v).t)
+        return VStr(z3.simplify(acc))
+
+    def percent_template(self, st, template, arg):
+        """'lit%slit%d' % (a, b) with str / int arguments -> concatenation."""
+        import re as _re
+        if template is None:
+            return None
+        items = arg.items if isinstance(arg, VTuple) else [arg]
+        parts = _re.split(r"(%[sd%])", template)
+        if any("%" in p for p in parts[0::2]):
+            return None
+        acc = z3.StringVal("")
+        k = 0
+        for i, p in enumerate(parts):
+            if i % 2 == 0:
+                if p:
+                    acc = z3.Concat(acc, z3.StringVal(p))
+                continue
+            if p == "%%":
+                acc = z3.Concat(acc, z3.StringVal("%"))
+                continue
+            if k >= len(items):
+                return None
+            v = items[k]
+            k += 1
+            if p == "%d" and not isinstance(v, VInt):
+                return None
+            if not isinstance(v, (VStr, VInt)) or (isinstance(v, VInt) and v.is_bv):
+                return None
+            acc = z3.Concat(acc, self.to_str(st, v).t)
+        if k != len(items):
+            return None
+        return VStr(z3.simplify(acc))
+
     def str_method(self, st, s: VStr, name, args, kwargs, node):
         c = s.const()
         if name in ("lower", "upper", "strip", "lstrip", "rstrip", "casefold", "title", "capitalize"):
@@ -996,7 +1088,10 @@ class CallMixin:
                 acc = z3.Concat(acc, s.t, x.t)
             return [(st, VStr(acc))]
         if name == "format":
-            return [(st, VStr(z3.String(fresh_name("format"))))]
+            r = self.format_template(st, c, args, kwargs)
+            if r is not None:
+                return [(st, r)]
+            return [(st, self.opaque_str(st, "format", node))]
         if name == "replace" and len(args) == 2 and all(isinstance(a, VStr) for a in args):
             ca, cb = args[0].const(), args[1].const()
             if c is not None and ca is not None and cb is not None:
